@@ -80,7 +80,10 @@ def check_path(pt, path, st):
     for site_fact in st.facts:
         kind, what, ok, site = site_fact
         if not ok:
-            if kind.startswith("scoped"):
+            if kind.startswith("an exact comparison"):
+                probs.append((f"{what} is not {kind}: connect(…, 'stage_a') takes STAGE1A for the requested object, skips the auto-create and then "
+                              f"sets a schema that does not exist", site))
+            elif kind.startswith("scoped"):
                 probs.append((f"{what} is not {kind}: a schema of that name in another database makes connect skip CREATE SCHEMA / set a "
                               f"schema that does not exist here", site))
             else:
